@@ -4,6 +4,8 @@ import (
 	"context"
 	"sync"
 	"sync/atomic"
+
+	"github.com/openfga/openfga/internal/verifhook"
 )
 
 // Reporter updates a single entry in a [StatusPool]. Not safe for concurrent use.
@@ -58,6 +60,7 @@ func NewStatusPool() *StatusPool {
 
 // inc atomically increments both the total and in-flight counters.
 func (sp *StatusPool) inc() int64 {
+	verifhook.Event("pl.inc", sp)
 	sp.total.Add(1)
 	return sp.inflight.Add(1)
 }
@@ -70,9 +73,11 @@ func (sp *StatusPool) dec() int64 {
 		// Swap ensures the channel is closed exactly once even if
 		// multiple goroutines race to decrement to zero.
 		if !sp.zero.Swap(true) {
+			verifhook.Event("pl.latch", sp)
 			close(sp.quiescence)
 		}
 	}
+	verifhook.Event("pl.dec", sp, value)
 	return value
 }
 
@@ -102,6 +107,7 @@ func (sp *StatusPool) set(index int) {
 				return
 			}
 		}
+		verifhook.Event("pl.allready", sp)
 		close(sp.ready)
 	}
 }
